@@ -270,6 +270,19 @@ def records(drv):
     r2 = copy.deepcopy(rec); r2[1]["out"] = "panic: partial rings remaining on stack"
     ok, why = records_accept("SplitRingTrace", "SplitRingTrace.cfg", "split_trace.ndjson", [json.dumps(x) for x in r2])
     report("splitring", "recorded panic", not ok, why)
+    # Dedupe
+    vec = [{"ring": [0, 1, 2, 1, 3]}, {"ring": [0, 1, 0, 1, 0, 2, 3]}, {"ring": [0, 1, 2, 3]}]
+    p = vlib.run([drv, "kmp-run"], input="\n".join(json.dumps(x) for x in vec) + "\n", check=True)
+    lines = [x for x in p.stdout.splitlines() if x.startswith("{")]
+    ok, _ = records_accept("DedupeTrace", "DedupeTrace.cfg", "dedupe_trace.ndjson", lines)
+    report("dedupe", "clean records accepted", ok)
+    rec = [json.loads(x) for x in lines]
+    r2 = copy.deepcopy(rec); r2[1]["got"] = r2[1]["ring"]
+    ok, why = records_accept("DedupeTrace", "DedupeTrace.cfg", "dedupe_trace.ndjson", [json.dumps(x) for x in r2])
+    report("dedupe", "zig-zag not removed", not ok, why)
+    r2 = copy.deepcopy(rec); r2[2]["got"] = [0, 2, 1, 3]
+    ok, why = records_accept("DedupeTrace", "DedupeTrace.cfg", "dedupe_trace.ndjson", [json.dumps(x) for x in r2])
+    report("dedupe", "vertices exchanged (adjacency invented)", not ok, why)
 
 
 def main():
